@@ -78,8 +78,9 @@ func (s c03Shape) String() string {
 }
 
 type c03Ev struct {
-	K       byte // E N R W C X P
+	K       byte // E N R W C X P, V = a guarded Next() call ended by a recovered panic
 	I       int
+	Guard   bool // on N: the call is guarded by a recover of the calling handler
 	Written bool
 	Cancel  bool
 	Ret     int
@@ -106,6 +107,22 @@ func (w *c03World) body(i int, c flamego.Context) (ret string) {
 			w.trace = append(w.trace, c03Ev{K: 'N', I: i})
 			c.Next()
 			w.trace = append(w.trace, c03Ev{K: 'R', I: i})
+		case 'G':
+			// Next() guarded by a recover of the handler's own: a panic of a later handler ends that call
+			w.trace = append(w.trace, c03Ev{K: 'N', I: i, Guard: true})
+			if func() (recovered bool) {
+				defer func() {
+					if recover() != nil {
+						recovered = true
+					}
+				}()
+				c.Next()
+				return false
+			}() {
+				w.trace = append(w.trace, c03Ev{K: 'V', I: i})
+			} else {
+				w.trace = append(w.trace, c03Ev{K: 'R', I: i})
+			}
 		case 'W':
 			w.trace = append(w.trace, c03Ev{K: 'W', I: i})
 			c.ResponseWriter().WriteHeader(w.base + i)
@@ -263,6 +280,8 @@ func c03AcceptBase(total int, tr []c03Ev, gotStatus int, gotBody string, base in
 	type frame struct {
 		next bool // a Next() call frame
 		id   int
+		// guarded: the Next() call is wrapped in a recover of the calling handler
+		guarded bool
 		// for Next frames: state at call time
 		open bool // written or cancelled or exhausted at call time
 	}
@@ -279,10 +298,29 @@ func c03AcceptBase(total int, tr []c03Ev, gotStatus int, gotBody string, base in
 	var prev byte
 	for n, ev := range tr {
 		at := fmt.Sprintf("event %d (%c%d)", n, ev.K, ev.I)
-		if prev == 'P' {
-			return at + ": events after a panic", "events-after-panic"
+		if prev == 'P' && ev.K != 'V' {
+			return at + ": events after a panic that no handler recovered", "events-after-panic"
 		}
 		switch ev.K {
+		case 'V':
+			// handler ev.I recovered, around its Next() call, the panic of a later handler: everything that
+			// call had started is abandoned; the handler goes on; not-yet-started handlers stay not started
+			if prev != 'P' {
+				return at + ": a guarded Next() reports a panic that no handler raised", "bad-nesting"
+			}
+			k := len(stack) - 1
+			for k >= 0 && !(stack[k].next && stack[k].id == ev.I) {
+				k--
+			}
+			if k < 0 {
+				return at + ": panic recovered by a handler that has no Next() call in progress", "bad-nesting"
+			}
+			for j := k + 1; j < len(stack); j++ {
+				if stack[j].next && stack[j].guarded {
+					return fmt.Sprintf("%s: the panic passed the guarded Next() of handler %d and was recovered further out", at, stack[j].id), "panic-passed-a-guard"
+				}
+			}
+			stack = stack[:k]
 		case 'E':
 			if ev.I != started {
 				if ev.I == 90 {
@@ -316,7 +354,7 @@ func c03AcceptBase(total int, tr []c03Ev, gotStatus int, gotBody string, base in
 			if t := top(); t == nil || t.next || t.id != ev.I {
 				return at + ": Next() call from a handler that is not on top", "bad-nesting"
 			}
-			stack = append(stack, frame{next: true, id: ev.I, open: written || cancelled || started == total})
+			stack = append(stack, frame{next: true, id: ev.I, open: written || cancelled || started == total, guarded: ev.Guard})
 		case 'R':
 			t := top()
 			if t == nil || !t.next || t.id != ev.I {
@@ -352,6 +390,13 @@ func c03AcceptBase(total int, tr []c03Ev, gotStatus int, gotBody string, base in
 			}
 		}
 		prev = ev.K
+	}
+	if prev == 'P' {
+		for _, fr := range stack {
+			if fr.next && fr.guarded {
+				return fmt.Sprintf("the panic was not stopped by the guarded Next() of handler %d", fr.id), "panic-passed-a-guard"
+			}
+		}
 	}
 	if prev != 'P' {
 		if len(stack) != 0 {
@@ -402,6 +447,8 @@ func c03TraceString(tr []c03Ev) string {
 			fmt.Fprintf(&b, "end%d ", e.I)
 		case 'P':
 			fmt.Fprintf(&b, "%d:panic ", e.I)
+		case 'V':
+			fmt.Fprintf(&b, ")%d:recovered ", e.I)
 		}
 	}
 	return strings.TrimSpace(b.String())
@@ -429,12 +476,8 @@ type c03Case struct {
 
 func c03Judge(w *c03World, s c03Shape, prog []c03Beh) (bad, kind string) {
 	status, body, esc := w.run(prog)
-	panics := false
-	for _, e := range w.trace {
-		if e.K == 'P' {
-			panics = true
-		}
-	}
+	// a panic that no guarded Next() recovered is the last event of the trace
+	panics := len(w.trace) > 0 && w.trace[len(w.trace)-1].K == 'P'
 	if esc != nil && !panics {
 		return fmt.Sprintf("ServeHTTP panicked although no handler panics: %v; trace: %s", esc, c03TraceString(w.trace)), "framework-panic"
 	}
@@ -493,7 +536,7 @@ func c03Shapes(maxN int, thorough bool) []c03Shape {
 }
 
 func c03Run(r *core.Run) {
-	r.Rule = "engine E: every handler program = stack shape (app middleware / nested group handlers / route handlers / optional action; handler types func(Context), func(Context) string, func(ResponseWriter, *Request), http.HandlerFunc, func(Context, *Request)) x one behaviour per position (action string over {Next, write, cancel} + terminal {return nothing, return \"\", return a string, panic}); each program is one request on a real Flame; the recorded event trace must be accepted by the trace automaton (chain order, at most once, none skipped, onion nesting, automatic advance iff nothing written and not cancelled, Next() completeness) and the response must equal what the trace implies; non-trivial = program with at least one Next() and at least one write/cancel/panic/returned string"
+	r.Rule = "engine E: every handler program = stack shape (app middleware / nested group handlers / route handlers / optional action; handler types func(Context), func(Context) string, func(ResponseWriter, *Request), http.HandlerFunc, func(Context, *Request)) x one behaviour per position (action string over {Next, write, cancel, install a derived context, Next guarded by the handler's own recover} + terminal {return nothing, return \"\", return a string, panic}); each program is one request on a real Flame; the recorded event trace must be accepted by the trace automaton (chain order, at most once, none skipped, onion nesting, automatic advance iff nothing written and not cancelled, Next() completeness) and the response must equal what the trace implies; non-trivial = program with at least one Next() and at least one write/cancel/panic/returned string"
 	r.Assumptions = []string{"an explicit Next() after a write or after a cancel may start the next handler or not (the statement leaves it open); everything else is exact", "no Recovery in the stack (C15 covers it)"}
 	type plan struct {
 		minN, maxN int
@@ -503,32 +546,32 @@ func c03Run(r *core.Run) {
 	}
 	var plans []plan
 	red := []c03Beh{}
-	for _, a := range []string{"", "N", "W", "NN", "C", "T", "TC"} {
+	for _, a := range []string{"", "N", "W", "NN", "C", "T", "TC", "G"} {
 		for _, t := range []int{0, 2, 3} {
 			red = append(red, c03Beh{a, t})
 		}
 	}
 	if r.Thorough() {
 		r.SetBudget(18 * time.Minute)
-		rich := c03Behaviours(3, "T", "TC", "TN", "NT", "TCN", "TNC", "CT", "TW", "TT", "TTC")
-		mid := c03Behaviours(2, "T", "TC", "TN", "NT", "TCN", "TNC", "CT", "TW", "TT", "TTC")
+		rich := c03Behaviours(3, "T", "TC", "TN", "NT", "TCN", "TNC", "CT", "TW", "TT", "TTC", "G", "GN", "GW")
+		mid := c03Behaviours(2, "T", "TC", "TN", "NT", "TCN", "TNC", "CT", "TW", "TT", "TTC", "G", "GN", "GW")
 		plans = []plan{
 			{1, 3, mid, "<=3 positions, every shape and variant, action strings <=2 over {N,W,C} plus ten context-installing ones", 0},
 			{1, 2, rich, "<=2 positions, every shape and variant, action strings <=3", 0},
 			{3, 3, rich, "3 positions, base shapes, action strings <=3 plus context-installing ones", 1},
-			{4, 4, c03Behaviours(2, "T", "TC"), "4 positions, base shapes, action strings <=2 plus T, TC", 1},
+			{4, 4, c03Behaviours(2, "T", "TC", "G"), "4 positions, base shapes, action strings <=2 plus T, TC, G", 1},
 			{4, 4, red, "4 positions, variant shapes, actions {'',N,W,NN,C,T,TC} x {nothing,string,panic}", 2},
-			{5, 5, c03Behaviours(1, "T", "TC"), "5 positions, base shapes, action strings <=1 plus T, TC", 1},
+			{5, 5, c03Behaviours(1, "T", "TC", "G"), "5 positions, base shapes, action strings <=1 plus T, TC, G", 1},
 		}
 	} else {
 		r.SetBudget(70 * time.Second)
 		mid := []c03Beh{}
-		for _, a := range []string{"", "N", "W", "C", "NN", "NW", "WN", "NC", "T", "TC"} {
+		for _, a := range []string{"", "N", "W", "C", "NN", "NW", "WN", "NC", "T", "TC", "G"} {
 			for _, t := range []int{0, 2, 3} {
 				mid = append(mid, c03Beh{a, t})
 			}
 		}
-		plans = []plan{{1, 3, c03Behaviours(2, "T", "TC", "TN", "TCN"), "<=3 positions, base shapes, action strings <=2 over {N,W,C} plus T, TC, TN, TCN", 1},
+		plans = []plan{{1, 3, c03Behaviours(2, "T", "TC", "TN", "TCN", "G", "GN"), "<=3 positions, base shapes, action strings <=2 over {N,W,C} plus T, TC, TN, TCN, G, GN (G = Next() guarded by a recover of the handler)", 1},
 			{1, 3, mid, "<=3 positions, variant shapes, actions {'',N,W,C,NN,NW,WN,NC,T,TC} x {nothing,string,panic}", 2},
 			{4, 4, red, "4 positions, actions {'',N,W,NN,C,T,TC} x {nothing,string,panic}", 0}}
 	}
@@ -580,7 +623,7 @@ func c03Run(r *core.Run) {
 						if prog[i].Term == 1 || prog[i].Term == 2 {
 							mask |= 1 << i
 						}
-						if strings.Contains(prog[i].Acts, "N") {
+						if strings.ContainsAny(prog[i].Acts, "NG") {
 							hasNext = true
 						}
 						if strings.ContainsAny(prog[i].Acts, "WCT") || prog[i].Term >= 2 {
@@ -616,6 +659,8 @@ func c03Run(r *core.Run) {
 							startedAll++
 						case 'P':
 							cls = "panicked"
+						case 'V':
+							cls = "panic-recovered-by-a-handler"
 						}
 					}
 					if cls != "panicked" && startedAll < n {
